@@ -124,3 +124,117 @@ class PatternProxy:
 
     def __getattr__(self, n: str) -> Any:
         raise HarnessError(f"pattern method {n} is not modelled")
+
+
+# ------------------------------------------------------------------------------------------
+# py2smt-light: run a small real string function on SymStr after an AST pass that reroutes the few operations
+# whose C-level protocol rejects a proxy (`x in "lit"`, `len(x)`), then explore it with the symlen Explorer.
+# ------------------------------------------------------------------------------------------
+
+import ast
+import inspect
+import textwrap
+
+_WS_CHARS = " \t\n\r\x0b\x0c"
+_fresh = [0]
+
+
+def _ws_re() -> Any:
+    return z3.Star(z3.Union(*[z3.Re(z3.StringVal(c)) for c in _WS_CHARS]))
+
+
+def _not_ws_start(t: Any) -> Any:
+    first = z3.SubString(t, 0, 1)
+    return z3.Or(z3.Length(t) == 0, z3.And(*[first != z3.StringVal(c) for c in _WS_CHARS]))
+
+
+def _not_ws_end(t: Any) -> Any:
+    last = z3.SubString(t, z3.Length(t) - 1, 1)
+    return z3.Or(z3.Length(t) == 0, z3.And(*[last != z3.StringVal(c) for c in _WS_CHARS]))
+
+
+def _strip(self: SymStr, left: bool, right: bool) -> SymStr:
+    """fresh variables with defining constraints (ASCII whitespace only - stated modelling bound)"""
+    from engines import symlen as S
+
+    ex = S._cur()
+    n = ex.notes.get("_fresh", 0) + 1   # per-path counter: the same names on every re-execution
+    ex.notes["_fresh"] = n
+    core = z3.String(f"_strip{n}")
+    parts = []
+    cons = []
+    if left:
+        l = z3.String(f"_lws{n}")
+        parts.append(l)
+        cons += [z3.InRe(l, _ws_re()), _not_ws_start(core)]
+    parts.append(core)
+    if right:
+        r = z3.String(f"_rws{n}")
+        parts.append(r)
+        cons += [z3.InRe(r, _ws_re()), _not_ws_end(core)]
+    cons.append(self.t == (z3.Concat(*parts) if len(parts) > 1 else parts[0]))
+    for c in cons:
+        ex._assume_pre(c)
+    return SymStr(core)
+
+
+SymStr.lstrip = lambda self, chars=None: _strip(self, True, False) if chars is None else (_ for _ in ()).throw(HarnessError("lstrip(chars)"))  # type: ignore[attr-defined]
+SymStr.rstrip = lambda self, chars=None: _strip(self, False, True) if chars is None else (_ for _ in ()).throw(HarnessError("rstrip(chars)"))  # type: ignore[attr-defined]
+SymStr.strip = lambda self, chars=None: _strip(self, True, True) if chars is None else (_ for _ in ()).throw(HarnessError("strip(chars)"))  # type: ignore[attr-defined]
+SymStr.isdigit = lambda self: SymBool(z3.InRe(self.t, z3.Plus(z3.Range(z3.StringVal("0"), z3.StringVal("9")))))  # type: ignore[attr-defined]
+SymStr.isspace = lambda self: SymBool(z3.InRe(self.t, z3.Plus(z3.Union(*[z3.Re(z3.StringVal(c)) for c in _WS_CHARS]))))  # type: ignore[attr-defined]
+
+
+def _in(a: Any, b: Any) -> Any:
+    if isinstance(a, SymStr) and isinstance(b, str):
+        return SymBool(z3.Contains(z3.StringVal(b), a.t)) if b else SymBool(a.t == z3.StringVal(""))
+    if isinstance(b, SymStr):
+        return SymBool(z3.Contains(b.t, sterm(a)))
+    return a in b
+
+
+def _len(x: Any) -> Any:
+    return x.slen() if isinstance(x, SymStr) else len(x)
+
+
+class _Rewrite(ast.NodeTransformer):
+    def visit_Compare(self, node: ast.Compare) -> Any:
+        self.generic_visit(node)
+        if len(node.ops) == 1 and isinstance(node.ops[0], (ast.In, ast.NotIn)):
+            call = ast.Call(func=ast.Name(id="_in", ctx=ast.Load()), args=[node.left, node.comparators[0]], keywords=[])
+            if isinstance(node.ops[0], ast.NotIn):
+                return ast.Call(func=ast.Name(id="_not", ctx=ast.Load()), args=[call], keywords=[])
+            return call
+        return node
+
+    def visit_Call(self, node: ast.Call) -> Any:
+        self.generic_visit(node)
+        if isinstance(node.func, ast.Name) and node.func.id == "len" and len(node.args) == 1:
+            node.func = ast.Name(id="_len", ctx=ast.Load())
+        return node
+
+    def visit_UnaryOp(self, node: ast.UnaryOp) -> Any:
+        self.generic_visit(node)
+        if isinstance(node.op, ast.Not):
+            return ast.Call(func=ast.Name(id="_not", ctx=ast.Load()), args=[node.operand], keywords=[])
+        return node
+
+
+def _not(x: Any) -> Any:
+    if isinstance(x, SymBool):
+        return ~x
+    if isinstance(x, SymStr):
+        return SymBool(z3.Length(x.t) == 0)
+    return not x
+
+
+def lift(fn: Any) -> Any:
+    """Re-compile the *current source* of a small string function with `in` / `len` / `not` rerouted to proxy-aware
+    helpers; every other statement is executed as written (loops, early returns, elif chains)."""
+    src = textwrap.dedent(inspect.getsource(fn))
+    tree = _Rewrite().visit(ast.parse(src))
+    ast.fix_missing_locations(tree)
+    ns = dict(fn.__globals__)
+    ns.update(_in=_in, _len=_len, _not=_not)
+    exec(compile(tree, f"<lifted {fn.__name__}>", "exec"), ns)
+    return ns[fn.__name__]
